@@ -704,6 +704,13 @@ package keeper
 //@ ensures [infr-immediate] (stretch) result1 == nil && msg.InfractionParameters != nil && pre0 ==> $SetInfractionParameters.called && $SetInfractionParameters.consumerId == c && !$UpdateQueuedInfractionParams.called && $SetInfractionParameters.parameters.DoubleSign == (msg.InfractionParameters.DoubleSign != nil ? msg.InfractionParameters.DoubleSign : infr0.0.DoubleSign) && $SetInfractionParameters.parameters.Downtime == (msg.InfractionParameters.Downtime != nil ? msg.InfractionParameters.Downtime : infr0.0.Downtime)
 //@ ensures [infr-queued] result1 == nil && msg.InfractionParameters != nil && !pre0 ==> $UpdateQueuedInfractionParams.called && $UpdateQueuedInfractionParams.consumerId == c && !$SetInfractionParameters.called && $UpdateQueuedInfractionParams.newInfractionParams.DoubleSign == (msg.InfractionParameters.DoubleSign != nil ? msg.InfractionParameters.DoubleSign : infr0.0.DoubleSign) && $UpdateQueuedInfractionParams.newInfractionParams.Downtime == (msg.InfractionParameters.Downtime != nil ? msg.InfractionParameters.Downtime : infr0.0.Downtime)
 //@ ensures [infr-untouched] result1 == nil && msg.InfractionParameters == nil ==> !$SetInfractionParameters.called && !$UpdateQueuedInfractionParams.called
+//@ let ip0 := old(k.Keeper.GetConsumerInitializationParameters(goCtx, c))
+//@ let phase0 := old(k.Keeper.GetConsumerPhase(goCtx, c))
+//@ ensures [lc-reinitializes] result1 == nil ==> $InitializeConsumer.called && $InitializeConsumer.consumerId == c
+//@ ensures [lc-schedules-launch] result1 == nil && $InitializeConsumer.called && $InitializeConsumer.ret1 ==> $PrepareConsumerForLaunch.called && $PrepareConsumerForLaunch.consumerId == c && $PrepareConsumerForLaunch.spawnTime == $InitializeConsumer.ret0 && $PrepareConsumerForLaunch.previousSpawnTime == ip0.0.SpawnTime && $PrepareConsumerForLaunch.ret == nil
+//@ ensures [lc-spawn-zero-deregisters] result1 == nil && msg.InitializationParameters != nil && msg.InitializationParameters.SpawnTime == 0 && phase0 == types.CONSUMER_PHASE_INITIALIZED ==> $RemoveConsumerToBeLaunched.called && $RemoveConsumerToBeLaunched.consumerId == c && $RemoveConsumerToBeLaunched.spawnTime == ip0.0.SpawnTime && $RemoveConsumerToBeLaunched.ret == nil
+//@ ensures [lc-init-params-prelaunch-only] result1 == nil && msg.InitializationParameters != nil ==> pre0
+//@ ensures [lc-chain-id-prelaunch-only] result1 == nil && strings.TrimSpace(msg.NewChainId) != "" && msg.NewChainId != old(k.Keeper.GetConsumerChainId(goCtx, c)).0 ==> pre0 && k.Keeper.GetConsumerChainId(goCtx, c).0 == msg.NewChainId
 //@ ensures [initial-height-consistent] result1 == nil && old(k.Keeper.GetConsumerInitializationParameters(goCtx, c)).1 == nil && old(k.Keeper.GetConsumerChainId(goCtx, c)).1 == nil && types.ValidateInitialHeight(old(k.Keeper.GetConsumerInitializationParameters(goCtx, c)).0.InitialHeight, old(k.Keeper.GetConsumerChainId(goCtx, c)).0) == nil ==> k.Keeper.GetConsumerInitializationParameters(goCtx, c).1 == nil && k.Keeper.GetConsumerChainId(goCtx, c).1 == nil && types.ValidateInitialHeight(k.Keeper.GetConsumerInitializationParameters(goCtx, c).0.InitialHeight, k.Keeper.GetConsumerChainId(goCtx, c).0) == nil
 
 //@ func msgServer.CreateConsumer
@@ -711,6 +718,10 @@ package keeper
 //@ ensures [opt-in-only] result1 == nil ==> result0 != nil && k.Keeper.GetConsumerPowerShapingParameters(goCtx, result0.ConsumerId).1 == nil && k.Keeper.GetConsumerPowerShapingParameters(goCtx, result0.ConsumerId).0.Top_N == 0
 //@ ensures [owner] result1 == nil ==> k.Keeper.GetConsumerOwnerAddress(goCtx, result0.ConsumerId).1 == nil && k.Keeper.GetConsumerOwnerAddress(goCtx, result0.ConsumerId).0 == msg.Submitter
 //@ ensures [fresh-id] result1 == nil ==> result0.ConsumerId == strconv.FormatUint(old(k.Keeper.GetConsumerId(goCtx)).0, 10)
+//@ ensures [lc-registered-or-initialized] (stretch) result1 == nil ==> k.Keeper.GetConsumerPhase(goCtx, result0.ConsumerId) == types.CONSUMER_PHASE_REGISTERED || k.Keeper.GetConsumerPhase(goCtx, result0.ConsumerId) == types.CONSUMER_PHASE_INITIALIZED
+//@ ensures [lc-schedules-launch] result1 == nil && $InitializeConsumer.called && $InitializeConsumer.ret1 ==> $PrepareConsumerForLaunch.called && $PrepareConsumerForLaunch.consumerId == result0.ConsumerId && $PrepareConsumerForLaunch.previousSpawnTime == 0 && $PrepareConsumerForLaunch.spawnTime == $InitializeConsumer.ret0 && $PrepareConsumerForLaunch.ret == nil
+//@ ensures [lc-chain-id-stored] result1 == nil ==> k.Keeper.GetConsumerChainId(goCtx, result0.ConsumerId).1 == nil && k.Keeper.GetConsumerChainId(goCtx, result0.ConsumerId).0 == msg.ChainId
+//@ ensures [infraction-defaults] result1 == nil ==> $SetInfractionParameters.called && $SetInfractionParameters.consumerId == result0.ConsumerId && (msg.InfractionParameters != nil && msg.InfractionParameters.DoubleSign != nil ==> $SetInfractionParameters.parameters.DoubleSign == msg.InfractionParameters.DoubleSign) && (msg.InfractionParameters != nil && msg.InfractionParameters.Downtime != nil ==> $SetInfractionParameters.parameters.Downtime == msg.InfractionParameters.Downtime)
 //@ ensures [initial-height-consistent] result1 == nil ==> k.Keeper.GetConsumerInitializationParameters(goCtx, result0.ConsumerId).1 == nil && k.Keeper.GetConsumerChainId(goCtx, result0.ConsumerId).1 == nil && types.ValidateInitialHeight(k.Keeper.GetConsumerInitializationParameters(goCtx, result0.ConsumerId).0.InitialHeight, k.Keeper.GetConsumerChainId(goCtx, result0.ConsumerId).0) == nil
 
 // ---------------------------------------------------------------- C15: the provider's own consensus set
